@@ -5,6 +5,7 @@ the theorems hold for every input sequence (all schedules of starts, terminal at
 late events).
 -/
 import AslModel.History
+import Proofs.Lemmas.FanProto
 namespace Asl.C02
 open Asl
 
@@ -78,5 +79,38 @@ theorem ends_exactly_once (pre mid post : List LInput) (ok : Bool)
 example : (Life.run [.other, .start, .other, .finish false, .finish true, .other, .start]).notes
     = [S "RUNNING", S "FAILED"] := by decide
 example : notesOK [S "RUNNING", S "SUCCEEDED"] = true ∧ notesOK [S "RUNNING", S "FAILED", S "FAILED"] = false := by decide
+
+/-! ## the execution ends at most once under nested fan-outs and arbitrary interleavings (`AslModel/FanProto.lean`) -/
+section FanProto
+open Asl.FanProto
+
+/-- (i) for EVERY sequence of fan-out launches, branch events, deferred handlers, task replies, cancellation callbacks,
+top-level endings and back-stop ticks, the repaired protocol (`Quirks.none`) outputs at most one `endExecution` -/
+theorem execution_ends_at_most_once (is : List Inp) : ((run Quirks.none init is).2.filter isEnd).length ≤ 1 := by
+  have := run_ends init is inv_init
+  simpa [init] using this
+
+/-- … and once it has ended it stays ended with nothing but tidy-up outputs, whatever the state it ended in -/
+theorem ended_is_final (s : Proto) (is : List Inp) (hi : Inv s) (he : s.ended.isSome = true) :
+    (run Quirks.none s is).1.ended.isSome = true ∧ (run Quirks.none s is).2.filter isEnd = [] :=
+  ⟨run_ended_mono _ s is he, quiet_filter_nil _ (run_quiet_after_end s is hi he)⟩
+
+/-- a fan-out whose failure is caught (metadata retained while the execution runs on at the top level), then the back
+stop finds the metadata expired, then the stalled top-level continuation reaches its terminal state -/
+def caughtThenBackstopThenTopEnd : List Inp :=
+  [.launch 0 2 none 0, .event 0 1 .goesOn, .event 0 0 (.fail (.plain 1) [.caught]), .backstop, .topEnd true]
+
+/-- C06-F5 (`topUnguarded`): the code as it is ends that execution twice (FAILED by the back stop, then SUCCEEDED) -/
+theorem top_unguarded_ends_twice :
+    (run { topUnguarded := true } init caughtThenBackstopThenTopEnd).2.filter isEnd = [.endExecution false, .endExecution true] := by
+  decide
+
+/-! non-vacuity -/
+example : (run Quirks.none init caughtThenBackstopThenTopEnd).2.filter isEnd = [.endExecution false] := by decide
+example : Inv (run Quirks.none init caughtThenBackstopThenTopEnd).1 ∧
+    (run Quirks.none init caughtThenBackstopThenTopEnd).1.ended.isSome = true :=
+  ⟨run_inv _ _ inv_init, by decide⟩
+
+end FanProto
 
 end Asl.C02
